@@ -87,6 +87,7 @@ func NewCtx(prop, tier string) (*Ctx, error) {
 	if err != nil {
 		return nil, err
 	}
+	kf.Prop = prop
 	c.KF = kf
 	set, err := plugin.Build(filepath.Join(scratch, "bin"))
 	if err != nil {
@@ -318,11 +319,15 @@ type Finding struct {
 	Replay   string   `json:"replay,omitempty"` // pinned replay file, relative to /verif
 	Commit   string   `json:"commit,omitempty"` // fix commit for status=fixed
 	Line     string   `json:"line,omitempty"`   // the "fixed: property=.. <commit> <what>" rendering
+	// Scope limits the avoidance switches to the named properties' checks (empty = every check): a
+	// construct that only one artefact handles wrongly must stay in the input domain of the others.
+	Scope []string `json:"scope,omitempty"`
 }
 
 // KnownFindings is the parsed file.
 type KnownFindings struct {
-	All []*Finding
+	All  []*Finding
+	Prop string // property of the running check (for Scope)
 }
 
 // LoadKnownFindings reads /verif/known_findings.jsonl (missing file = none).
@@ -357,6 +362,17 @@ func (k *KnownFindings) Avoid() map[string]string {
 	for _, f := range k.All {
 		if f.Status != "open" {
 			continue
+		}
+		if len(f.Scope) > 0 && k.Prop != "" {
+			in := false
+			for _, p := range f.Scope {
+				if p == k.Prop {
+					in = true
+				}
+			}
+			if !in {
+				continue
+			}
 		}
 		for _, a := range f.Avoid {
 			if _, ok := out[a]; !ok {
